@@ -68,6 +68,29 @@ def modelLine (fields : List String) : String :=
             full := s!"{n} {e} {Driver.toHex b}"
         return s!"encall {size} ok {nsz} {size + 1} {nclean} {Driver.hex64 h} {full}"
     | _, _ => "bad-op"
+  | "omar" :: _ :: r =>
+    match parseMsg? r with
+    | some (m, _) =>
+      match optionsMarshal none m.options with
+      | .error e => s!"omar -1 {e.toString} 0 0 - -"
+      | .ok (n0, small0, _) => Id.run do
+        let mut h := Driver.fnvInit
+        let mut nsz := 0
+        let mut full := "-"
+        for cap in [0:n0 + 1] do
+          let (n, e, b) : Int × String × Bytes :=
+            match optionsMarshal (some (List.replicate cap fill)) m.options with
+            | .ok (n, small, b) => ((n : Int), (if small then "tooSmall" else "ok"), b)
+            | .error e => (-1, e.toString, List.replicate cap fill)
+          h := Driver.fnvMix (Driver.fnvMix h (intToU64 n)) (errCode e)
+          for x in b do
+            h := Driver.fnvMix h x.toUInt64
+          if cap < n0 then
+            if n = (n0 : Int) ∧ e = "tooSmall" then nsz := nsz + 1
+          else
+            full := s!"{n} {e} {Driver.toHex b}"
+        return s!"omar {n0} {if small0 then "tooSmall" else "ok"} {nsz} {n0 + 1} {Driver.hex64 h} {full}"
+    | none => "bad-op"
   | "rt" :: c :: cap :: r =>
     match parseCoder? c, cap.toNat?, parseMsg? r with
     | some f, some cap, some (m, _) =>
@@ -124,6 +147,18 @@ def judgeLine (inp out : List String) : String :=
         | _ => none
       (judgeEncAll f m size err nsz ncan fo).toString
     | _, _, _, _, _ => "bad-op"
+  | "omar" :: _ :: r, "omar" :: n0 :: e0 :: nsz :: ncan :: _dig :: full =>
+    match parseMsg? r, Driver.parseInt? n0, nsz.toNat?, ncan.toNat? with
+    | some (m, _), some n0, some nsz, some ncan =>
+      let fo : Option EncObs :=
+        match full with
+        | [n, e, b] =>
+          match Driver.parseInt? n, Driver.parseHex? b with
+          | some n, some b => some ⟨n, e, b, true⟩
+          | _, _ => none
+        | _ => none
+      (judgeOptionsMarshal m.options n0 e0 nsz ncan fo).toString
+    | _, _, _, _ => "bad-op"
   | "rt" :: c :: _cap :: r, "rt" :: n :: err :: rest =>
     match parseCoder? c, parseMsg? r, Driver.parseInt? n with
     | some f, some (m, _), some n =>
